@@ -218,6 +218,18 @@ class CacheDatasetC(ClassContract):
     )
 
 
+def _cache_refusal_variants():
+    from contracts.stages import _split_refusal
+    oyr, por = items_refused_clauses(self_view)
+    v = Variant('items-refused', params={'with_key': 'true'}, generator=True, on_yield=oyr, post=por,
+                requires=lambda S: z3.And(self_view(S).idx, z3.Not(self_view(S).keys)),
+                loops={'src:range(len(self))': _iter_inv}, props=('C03', 'C10'), hooks=cache_hooks(), inline=('keys',))
+    return _split_refusal([v], lambda S: F(S)['input_dataset'].t)
+
+
+CacheDatasetC.methods['__iter__'] = CacheDatasetC.methods['__iter__'] + _cache_refusal_variants()
+
+
 def _cache_copy_post(S, o):
     """copy shares the very cache object (identity), so copies share entries and the once-only count"""
     out = post_copy(S, o)
